@@ -82,6 +82,21 @@ def run_rows_case(spec):
                 if not ref.near(d["values"][1][i], exp, scale):
                     viols.append({"rule": "row_security_value", "expected": {"node": name, "date": lab, "value": exp}, "observed": d["values"][1][i]})
                     break
+    # the position row of a date is the position at the end of that date: previous row + the date's executed trades
+    traded = {}
+    for sec, owner, tick, q, price, mult, when in res["trades"]:
+        traded.setdefault(sec, {})
+        traded[sec][when] = traded[sec].get(when, 0.0) + q
+    for name, d in h.items():
+        if d["__kind__"] != "X":
+            continue
+        labels, pos = d["positions"]
+        for i, lab in enumerate(labels):
+            prev = pos[i - 1] if i else 0.0
+            exp = prev + traded.get(name, {}).get(lab, 0.0)
+            if not ref.near(pos[i], exp, max(1.0, abs(exp))):
+                viols.append({"rule": "row_position_end_of_date", "expected": {"node": name, "date": lab, "position": exp, "previous_row": prev, "traded_on_the_date": traded.get(name, {}).get(lab, 0.0)}, "observed": pos[i]})
+                break
     return ("ok", viols[:4], len(res["trades"]))
 
 
